@@ -76,7 +76,21 @@ def main():
             res.obligations = res.discharged = 1
             res.notes.append("development run: build/audit skipped")
         common.bootstrap_repo()
-        mod.run(res, a.tier, build_ok)
+        try:
+            mod.run(res, a.tier, build_ok)
+        except Infra:
+            raise
+        except Exception as e:
+            # an exception escaping from the code under test on an input inside the property's domain
+            tb = traceback.extract_tb(e.__traceback__)
+            inner = [f for f in tb if str(f.filename).startswith(str(common.REPO))]
+            if not inner:
+                raise
+            where = "%s:%d" % (inner[-1].filename.replace(str(common.REPO) + "/", ""), inner[-1].lineno)
+            res.violation("implementation raises %s at %s" % (type(e).__name__, where.split(":")[0]),
+                          "the implementation raised %s (%s) on an input inside the property's domain, at %s" % (type(e).__name__, e, where),
+                          {"exception": type(e).__name__, "message": str(e)[:300], "where": where,
+                           "traceback": traceback.format_exception(type(e), e, e.__traceback__)[-6:]})
         sys.exit(res.finish())
     except Infra as e:
         print("INFRA-ERROR property=%s: %s" % (pid, e))
